@@ -450,13 +450,54 @@ def register_extend(reg):
                 return fn.body[i:]
         return []
 
+    def distinct_list(v):
+        if not isinstance(v, VList):
+            return z3.BoolVal(True)
+        i, j = z3.Int(fresh_name("di")), z3.Int(fresh_name("dj"))
+        return z3.ForAll([i, j], z3.Implies(z3.And(0 <= i, i < j, j < v.n), v.arr[i] != v.arr[j]))
+
+    def disjoint_lists(c, a, b):
+        if not (isinstance(a, VList) and isinstance(b, VList)):
+            return z3.BoolVal(True)
+        return z3.SetIntersect(c.eng.list_mem(a, c.st), c.eng.list_mem(b, c.st)) == z3.K(c.S.Atom, z3.BoolVal(False))
+
     def region_entry(c):
         me = VScalar(c.self.z, T.obj("ExtendNode"))
+        # for the concretiser: the entry values of this step's window specification (read back from a counter-model)
+        c.params["__self_spec__"] = {"partition_by": c.field(me, "partition_by"), "order_by": c.field(me, "order_by"), "reverse": c.field(me, "reverse"),
+                                     "windowed": c.field(me, "windowed_situation"), "is_extend": c.eng.tag_of(c.st, c.self) == c.eng.classes["ExtendNode"].tag}
         # len() of a Python list is never negative (a fact of the encoding, not of the code)
-        return [z3.Not(trivial_formula(c.eng, c.st, c.self))] + [c.field(me, f).n >= 0 for f in ("partition_by", "order_by", "reverse")]
+        # established by the statements the region drops: _work_col_group_arg returns duplicate-free lists, the prefix rejects overlapping partition / order columns,
+        # and ExtendNode.__init__ rejects duplicates and overlaps in the stored specification
+        wf_lists = [distinct_list(c.field(me, f)) for f in ("partition_by", "order_by", "reverse")] + [distinct_list(getattr(c, f)) for f in ("partition_by", "order_by", "reverse")] + \
+                   [disjoint_lists(c, c.field(me, "partition_by"), c.field(me, "order_by")), disjoint_lists(c, c.partition_by, c.order_by)]
+        return [z3.Not(trivial_formula(c.eng, c.st, c.self))] + [c.field(me, f).n >= 0 for f in ("partition_by", "order_by", "reverse")] + wf_lists
+
+    def concretize_decision(model, params, S):
+        """plain-data case from a counter-model: the window specification of the existing extend step and of the new one"""
+        from contracts.c06_merge import model_atoms
+        names = model_atoms(model, S)
+        def nm(z):
+            v = model.eval(z, model_completion=True)
+            return names.get(str(v), ("c_unnamed", None))[0]
+        def lst(v):
+            if isinstance(v, VPy):
+                return v.obj
+            n = model.eval(v.n, model_completion=True).as_long()
+            if n < 0 or n > 6:
+                raise ValueError("list length %d outside the replayable scope" % n)
+            return [nm(v.arr[i]) for i in range(n)]
+        sp = params["__self_spec__"]
+        ops = params["parsed_ops"]
+        iwf = S.func("implies_windowed", z3.ArraySort(S.Atom, z3.BoolSort()), z3.ArraySort(S.Atom, S.sort("Expr")), z3.BoolSort())
+        return {"columns": sorted(n for (n, a) in names.values()),
+                "self": {"is_extend": z3.is_true(model.eval(sp["is_extend"], model_completion=True)), "partition_by": lst(sp["partition_by"]), "order_by": lst(sp["order_by"]), "reverse": lst(sp["reverse"]),
+                         "windowed": z3.is_true(model.eval(sp["windowed"].z, model_completion=True))},
+                "new": {"partition_by": lst(params["partition_by"]), "order_by": lst(params["order_by"]), "reverse": lst(params["reverse"]),
+                        "ops_imply_window": z3.is_true(model.eval(iwf(ops.dom, ops.val), model_completion=True))}}
 
     for (tag, pbt) in (("[partition_by=1]", Ty_py(1)), ("[partition_by=list]", COLS)):
-        reg.add(Contract(key="ViewRepresentation.extend_parsed_:merge-decision" + tag, file=F, qualname="ViewRepresentation.extend_parsed_", cls="ViewRepresentation",
+        reg.add(Contract(concretize=concretize_decision, key="ViewRepresentation.extend_parsed_:merge-decision" + tag, file=F, qualname="ViewRepresentation.extend_parsed_", cls="ViewRepresentation",
                          params={"self": NODE, "parsed_ops": OPS, "partition_by": pbt, "order_by": COLS, "reverse": COLS}, returns=NODE,
                          requires=requires, ensures=ens, entry_assume=region_entry, body_select=merge_region, names=("extend_parsed_:merge-decision" + tag,)))
 
